@@ -107,6 +107,58 @@ theorem rdfa_canonical_block (lbl : β → Spec.Html.Str) (C : Spec.Rdfa.Ctx) (n
       { out := [Triple.map (Spec.Rdfa.sigma lbl) t], lm := [], next := n } :=
   Spec.Rdfa.canon_correct lbl C n t hinc hs hp ho
 
+/-! Pattern theorems: what the §7.5 sequence yields for the chaining idioms, for all attribute spellings that
+    resolve (`resSCI … = some S`, `resTCAs … = [p]`) and every context without pending incomplete triples.
+    `chaining`, `inherited subject` are what the writer's validated candidates consist of; processor-made blank
+    nodes and @inlist are *not* used by the writer and are covered by these statements (and by the rdfa-soup
+    correspondence) only. -/
+
+/-- incomplete triples + processor-made blank node: `<div about rel><span property content/></div>` -/
+theorem rdfa_hanging_anonymous (C : Spec.Rdfa.Ctx) (n : Nat) (a p q c : Spec.Html.Str) (S : Spec.Rdfa.T)
+    (hinc : C.incomplete = []) (ha : Spec.Rdfa.resSCI C.env a = some S)
+    (hp : Spec.Rdfa.resTCAs C.env p = [p]) (hq : Spec.Rdfa.resTCAs C.env q = [q]) :
+    Spec.Rdfa.procNode C [] n (.elem .div { about := some a, rel := some p }
+        [.elem .span { property := some q, content := some c, lang := some [] } []]) =
+      { out := [⟨Spec.Rdfa.fresh n, q, .lit c xsdString none⟩, ⟨S, p, Spec.Rdfa.fresh n⟩], lm := [], next := n + 1 } :=
+  Spec.Rdfa.hanging_anonymous C n a p q c S hinc ha hp hq
+
+/-- chaining: `<div about=s rel=p><span about=o property=q content=c/></div>` gives `o q c . s p o` -/
+theorem rdfa_chaining (C : Spec.Rdfa.Ctx) (n : Nat) (a p r q c : Spec.Html.Str) (S O : Spec.Rdfa.T)
+    (hinc : C.incomplete = []) (ha : Spec.Rdfa.resSCI C.env a = some S) (hr : Spec.Rdfa.resSCI C.env r = some O)
+    (hp : Spec.Rdfa.resTCAs C.env p = [p]) (hq : Spec.Rdfa.resTCAs C.env q = [q]) :
+    Spec.Rdfa.procNode C [] n (.elem .div { about := some a, rel := some p }
+        [.elem .span { about := some r, property := some q, content := some c, lang := some [] } []]) =
+      { out := [⟨O, q, .lit c xsdString none⟩, ⟨S, p, O⟩], lm := [], next := n + 1 } :=
+  Spec.Rdfa.chaining C n a p r q c S O hinc ha hr hp hq
+
+/-- subject and language inherited from the parent, literal from the text content -/
+theorem rdfa_inherited_subject (C : Spec.Rdfa.Ctx) (n : Nat) (a q c l : Spec.Html.Str) (S : Spec.Rdfa.T) (hl : l ≠ [])
+    (hinc : C.incomplete = []) (ha : Spec.Rdfa.resSCI C.env a = some S) (hq : Spec.Rdfa.resTCAs C.env q = [q]) :
+    Spec.Rdfa.procNode C [] n (.elem .div { about := some a, lang := some l }
+        [.elem .span { property := some q } [.text c]]) =
+      { out := [⟨S, q, .lit c rdfLangString (some l)⟩], lm := [], next := n } :=
+  Spec.Rdfa.inherited_subject C n a q c l S hl hinc ha hq
+
+/-- `@property @typeof` without a resource: a typed blank node as the property's object (step 5.1) -/
+theorem rdfa_typed_bnode_object (C : Spec.Rdfa.Ctx) (n : Nat) (a q ty : Spec.Html.Str) (S : Spec.Rdfa.T)
+    (hinc : C.incomplete = []) (ha : Spec.Rdfa.resSCI C.env a = some S) (hq : Spec.Rdfa.resTCAs C.env q = [q])
+    (hty : Spec.Rdfa.resTCAs C.env ty = [ty]) :
+    Spec.Rdfa.procNode C [] n (.elem .div { about := some a }
+        [.elem .span { property := some q, typeof := some ty } []]) =
+      { out := [⟨Spec.Rdfa.fresh n, Spec.Rdfa.rdfType, .iri ty⟩, ⟨S, q, Spec.Rdfa.fresh n⟩], lm := [], next := n + 1 } :=
+  Spec.Rdfa.typed_bnode_object C n a q ty S hinc ha hq hty
+
+/-- list mapping: the @inlist children of an element that sets a new subject become one RDF collection, in
+    document order, attached to that subject (for any number ≥ 1 of items) -/
+theorem rdfa_inlist_collection (C : Spec.Rdfa.Ctx) (n : Nat) (a p c : Spec.Html.Str) (cs : List Spec.Html.Str)
+    (S : Spec.Rdfa.T) (hinc : C.incomplete = []) (ha : Spec.Rdfa.resSCI C.env a = some S) (hne : S ≠ C.parentSubject)
+    (hp : Spec.Rdfa.resTCAs C.env p = [p]) :
+    Spec.Rdfa.procNode C [] n (.elem .div { about := some a } ((c :: cs).map (Spec.Rdfa.listItem p))) =
+      { out := Spec.Rdfa.listCells n ((c :: cs).map (fun c => (.lit c xsdString none : Spec.Rdfa.T))) ++
+               [⟨S, p, Spec.Rdfa.fresh n⟩],
+        lm := [], next := n + (c :: cs).length } :=
+  Spec.Rdfa.inlist_collection C n a p c cs S hinc ha hne hp
+
 variable [DecidableEq β]
 
 /-- Microdata round trip, for validated candidates and canonical fallbacks alike: whenever the writer reports
